@@ -6,11 +6,14 @@ import sys
 REPO = os.environ.get('VF_REPO', '/repo')
 
 
-def real_module(mod):
+def real_module(mod, fresh=False):
+    """the real module from the tree under verification; fresh=True re-executes it (module-level state as after import)"""
     src = os.path.join(REPO, 'src')
     if sys.path[0] != src:
         sys.path.insert(0, src)
     m = importlib.import_module(f'scippneutron.{mod}')
+    if fresh:
+        m = importlib.reload(m)
     f = getattr(m, '__file__', '') or ''
     if not os.path.abspath(f).startswith(os.path.abspath(src)):
         raise RuntimeError(f'real module {mod} loaded from {f}, expected under {src}')
